@@ -236,6 +236,101 @@ pub fn run(ctx: &Ctx) -> Report {
             rep.violations += bad.len() as u64 - 3;
         }
     }
+    // ... and next to characters of every kind: each scalar directly after a 2-byte, a 3-byte
+    // double-width, a symbol and a zero-width character, and followed by them (what is done to
+    // a character because of its NEIGHBOUR: joining, skipping, widening)
+    {
+        let t0 = Instant::now();
+        let all: Vec<u32> = (0x20u32..=0x10FFFF)
+            .filter(|c| !(0x7f..0xa0).contains(c) && char::from_u32(*c).is_some())
+            .filter(|&c| ctx.tier == Tier::Thorough || c < 0x3000 || (0xFE00..=0xFFFF).contains(&c) || (0x1F000..=0x1FAFF).contains(&c) || (0xE0000..=0xE01FF).contains(&c) || c % 251 == 0)
+            .collect();
+        let neighbours = ['\u{e9}', '\u{6f22}', '\u{2764}', '\u{301}', '\u{1F600}'];
+        let bad: Vec<(u32, usize, String, String)> = all
+            .par_iter()
+            .filter_map(|&cp| {
+                let ch = char::from_u32(cp).unwrap();
+                let mut line = String::new();
+                for nb in neighbours {
+                    line.push(nb);
+                    line.push(ch);
+                }
+                line.push('!');
+                for w in [2usize, 5, 20] {
+                    let err = match guarded(|| check_one(&[line.clone()], w, 2, w == 5)) {
+                        Ok(Ok(_)) => None,
+                        Ok(Err(e)) => Some(e),
+                        Err(m) => Some(format!("panic: {}", m)),
+                    };
+                    if let Some(e) = err {
+                        return Some((cp, w, line.clone(), e));
+                    }
+                }
+                None
+            })
+            .collect();
+        let runs = all.len() as u64 * 3;
+        rep.transitions += runs;
+        rep.evaluations += runs;
+        rep.traces_validated += runs;
+        rep.distinct_nontrivial += runs;
+        rep.parts.push(json!({"part":"every-scalar-next-to-non-ascii","scalars":all.len(),"neighbours":neighbours.len(),"runs":runs,"violating":bad.len(),"wall_s":t0.elapsed().as_secs_f64()}));
+        println!("part every-scalar-next-to-non-ascii: {} scalars x 5 neighbours, {} runs, {} violating ({:.1}s)", all.len(), runs, bad.len(), t0.elapsed().as_secs_f64());
+        for (cp, w, line, e) in bad.iter().take(3) {
+            emit_violation(ctx, &mut rep, "C09", json!({"part":"every-scalar-next-to-non-ascii","lines":[line],"cols":w,"rows":2,"per_char": *w == 5,
+                "scalar": cp, "oracle":"text-reproduced","observed":e}));
+        }
+        if bad.len() > 3 {
+            rep.violations += bad.len() as u64 - 3;
+        }
+    }
+    // one very long line: "however many rows each line wraps over" - every length around the
+    // powers of two up to 2^21 (thorough 2^23) characters, between two short lines
+    {
+        let t0 = Instant::now();
+        let mut lens: Vec<usize> = vec![];
+        for k in 10..=ctx.tier.pick(21u32, 23) {
+            let b = 1usize << k;
+            lens.extend([b - 1, b, b + 1]);
+        }
+        lens.extend([100_000, 1_000_000, 1_100_000]);
+        lens.sort();
+        let bad: Vec<(usize, usize, String)> = lens
+            .par_iter()
+            .filter_map(|&n| {
+                let body: String = "abcdefghij".chars().cycle().take(n).collect();
+                let lines = vec!["first".to_string(), body, "last".to_string()];
+                for (w, h) in [(80usize, 24usize), (7, 3)] {
+                    if w == 7 && n > (1 << 19) {
+                        continue;
+                    }
+                    let err = match guarded(|| check_one(&lines, w, h, false)) {
+                        Ok(Ok(_)) => None,
+                        Ok(Err(e)) => Some(e),
+                        Err(m) => Some(format!("panic: {}", m)),
+                    };
+                    if let Some(e) = err {
+                        let short: String = if e.len() > 300 { format!("{} ... ({} characters)", e.chars().take(120).collect::<String>(), e.len()) } else { e };
+                        return Some((n, w, short));
+                    }
+                }
+                None
+            })
+            .collect();
+        let runs = lens.len() as u64 * 2;
+        rep.transitions += runs;
+        rep.evaluations += runs;
+        rep.traces_validated += runs;
+        rep.distinct_nontrivial += runs;
+        rep.parts.push(json!({"part":"one-very-long-line","lengths":lens.len(),"max_length":lens.last(),"runs":runs,"violating":bad.len(),"wall_s":t0.elapsed().as_secs_f64()}));
+        println!("part one-very-long-line: {} lengths up to {}, {} violating ({:.1}s)", lens.len(), lens.last().unwrap(), bad.len(), t0.elapsed().as_secs_f64());
+        for (n, w, e) in bad.iter().take(2) {
+            emit_violation(ctx, &mut rep, "C09", json!({"part":"one-very-long-line","length":n,"cols":w,"oracle":"text-reproduced","observed":format!("a line of {} characters at width {}: {}", n, w, e)}));
+        }
+        if bad.len() > 2 {
+            rep.violations += bad.len() as u64 - 2;
+        }
+    }
     // every line count: "however much has scrolled into an unlimited scrollback"
     {
         let t0 = Instant::now();
@@ -336,6 +431,13 @@ pub fn replay(ctx: &Ctx, v: &Value) -> bool {
     if v["part"] == "long-call-of-multibyte-characters" {
         let c2 = Ctx { id: ctx.id.clone(), tier: Tier::Quick, seed: 0, start: ctx.start, known: ctx.known.clone(), replay_dir: format!("{}/again", ctx.replay_dir) };
         return run(&c2).violations > 0;
+    }
+    if v["part"] == "one-very-long-line" {
+        let n = v["length"].as_u64().unwrap_or(0) as usize;
+        let body: String = "abcdefghij".chars().cycle().take(n).collect();
+        let r = check_one(&["first".to_string(), body, "last".to_string()], v["cols"].as_u64().unwrap_or(80) as usize, 3, false);
+        println!("{:?}", r.as_ref().map(|_| "ok").map_err(|e| e.chars().take(200).collect::<String>()));
+        return r.is_err();
     }
     let lines: Vec<String> = v["lines"].as_array().unwrap().iter().map(|x| x.as_str().unwrap().to_string()).collect();
     let r = check_one(
